@@ -1234,6 +1234,37 @@ def c08(tier, rng, rep, only=None):
                     rep.known_hit("empty_literal_range_accepted", "exclusive literal bounds that leave no value between them (e.g. greater = 5, less = 6 on integers) are accepted")
                 else:
                     rep.violation("declaration %s breaks the reference rule %s but is accepted" % (d.id, ref), payload)
+    # ---- the #[test]s the macro emits for what it cannot decide itself
+    n_tests = 0
+    if only is None:
+        gdecls = verdicts.gen_gentest_decls(rng.fork("gt"), tier)
+        gg = flows.GuardRun("gentest", gdecls)
+        for d in gdecls:
+            gg.add_ops(d, [("gen_tests", "")])
+        gg.build()
+        gg.run_model()
+        with flock("cargo_gentest"):
+            p = run(["cargo", "test", "--offline", "--no-fail-fast", "-j", str(NPROC)], cwd=gg.ws.dir, timeout=1500)
+        real = {}
+        for line in (p.stdout + p.stderr).splitlines():
+            m_ = re.match(r"test decls::(\w+)::__nutype_\w+__::tests::(\w+) \.\.\. (ok|FAILED)", line)
+            if m_:
+                real.setdefault(m_.group(1), {})[m_.group(2)] = m_.group(3)
+        for d in gdecls:
+            if d.id not in gg.live:
+                rep.notes.append("gentest declaration %s did not compile" % d.id)
+                continue
+            mo = gg.by_decl[d.id][0].model or ""
+            model = dict(x.split("=") for x in mo.split(";") if "=" in x)
+            got = real.get(d.id, {})
+            n_tests += len(got)
+            if got != model:
+                rep.violation("generated tests of %s: real outcome %s, model %s" % (d.id, got, model),
+                              {"kind": "generated-test", "decl": d.to_json(), "decl_rust": runner.decl_module(d, None), "real": got, "model": model},
+                              no_input=False)
+        classes["generated_tests_run"] = n_tests
+        if n_tests < 50:
+            rep.violation("self-check: generated tests were not run (%d)" % n_tests, {"kind": "coverage"}, no_input=True)
     rep.coverage.update({"evaluations": n, "distinct_nontrivial": sum(v for k_, v in classes.items() if k_ != "accept"),
                          "rule": "declarations generated from the attribute grammar: every refusal class of the macro and its near misses (struct shape, attributes, field visibility, unknown / wrong-family / wrong-case names, duplicates, literal bounds in every relative position incl. equal and adjacent, expressions hiding the same contradictions, with/error pairing, the full family x trait x validation matrix with derive dependencies, Arbitrary restrictions, regex literals, const_fn, generics and short type-parameter names) under all features and under std only; three verdicts per declaration: rustc on the real expansion (errors attributed by span), the model's front end, the reference rule book",
                          "verdict_classes": classes, "exhaustive": False})
